@@ -57,6 +57,7 @@ func famSchnorrHonest(k *mon.Case) {
 		k.Failf("keys:PrivateKey.PubKey:differs-from-dG", "d=%x btcd=(%x,%x) ref=(%x,%x)", d, pub.X(), pub.Y(), refP.X, refP.Y)
 		return
 	}
+	g := (&inputGuard{}).priv("private_key", priv).pub("public_key", pub).bytes("hash", msg)
 	sig, err := schnorr.Sign(priv, msg, opts...)
 	if err != nil {
 		k.Failf("schnorr:Sign:error-on-valid-input", "d=%x msg=%x mode=%d: %v", d, msg, mode, err)
@@ -86,15 +87,26 @@ func famSchnorrHonest(k *mon.Case) {
 		k.Failf("schnorr:Sign:not-deterministic", "d=%x msg=%x first %x second %v", d, msg, sb, again)
 	}
 	// round trips
-	ps, err := schnorr.ParseSignature(sb)
+	sbuf := append([]byte{}, sb...)
+	ps, err := schnorr.ParseSignature(sbuf)
 	if err != nil || !bytes.Equal(ps.Serialize(), sb) || !ps.IsEqual(sig) {
 		k.Failf("schnorr:ParseSignature:roundtrip", "sig=%x err=%v", sb, err)
+	} else if !bytes.Equal(sbuf, sb) {
+		k.Failf("aliasing:schnorr.ParseSignature:caller-input-modified:signature", "before=%x after=%x", sb, sbuf)
+	} else if scramble(sbuf); !ps.IsEqual(sig) || !ps.Verify(msg, pub) {
+		k.Failf("aliasing:schnorr.ParseSignature:result-retains-caller-slice", "sig=%x", sb)
 	}
 	ser := schnorr.SerializePubKey(pub)
-	pp, err := schnorr.ParsePubKey(ser)
+	kbuf := append([]byte{}, ser...)
+	pp, err := schnorr.ParsePubKey(kbuf)
 	if !bytes.Equal(ser, pk32) || err != nil || pp.X().Cmp(refP.X) != 0 || pp.Y().Bit(0) != 0 {
 		k.Failf("schnorr:ParsePubKey:roundtrip", "pub=%x ser=%x err=%v", pk32, ser, err)
+	} else if !bytes.Equal(kbuf, ser) {
+		k.Failf("aliasing:schnorr.ParsePubKey:caller-input-modified:key", "before=%x after=%x", ser, kbuf)
+	} else if scramble(kbuf); pp.X().Cmp(refP.X) != 0 || !bytes.Equal(schnorr.SerializePubKey(pub), pk32) {
+		k.Failf("aliasing:schnorr.ParsePubKey:result-retains-caller-slice", "pub=%x", pk32)
 	}
+	g.check(k, "schnorr.Sign/Verify")
 	k.Count("schnorr.sign", 1)
 	k.Count(fmt.Sprintf("schnorr.sign.mode%d", mode), 1)
 	if edge {
@@ -180,7 +192,12 @@ func famSchnorrForge(k *mon.Case) {
 	}
 	for _, v := range vs {
 		want := refec.SchnorrVerify(v.pk, v.msg, v.sig)
+		g := (&inputGuard{}).bytes("public_key", v.pk).bytes("hash", v.msg).bytes("signature", v.sig)
 		got, stage := btcdSchnorrVerify(v.pk, v.msg, v.sig)
+		if again, _ := btcdSchnorrVerify(v.pk, v.msg, v.sig); again != got {
+			k.Failf("schnorr:Verify:not-idempotent", "pk=%x msg=%x sig=%x first=%v second=%v", v.pk, v.msg, v.sig, got, again)
+		}
+		g.check(k, "schnorr.ParseSignature/ParsePubKey/Verify")
 		if got != want {
 			k.Failf(fmt.Sprintf("schnorr:Verify:%s:btcd-%s-oracle-%s", v.name, b2s(got), b2s(want)),
 				"pk=%x msg=%x sig=%x (btcd stage %s)", v.pk, v.msg, v.sig, stage)
@@ -261,7 +278,12 @@ func famSchnorrBoundary(k *mon.Case) {
 
 	// parsers against their definitions
 	wantSigParse := len(sig) == 64 && refec.Int(sig[:32]).Cmp(refec.P) < 0 && refec.Int(sig[32:]).Cmp(refec.N) < 0
-	ps, err := schnorr.ParseSignature(sig)
+	sigBuf, pkBuf := append([]byte{}, sig...), append([]byte{}, pk...)
+	ps, err := schnorr.ParseSignature(sigBuf)
+	if !bytes.Equal(sigBuf, sig) {
+		k.Failf("aliasing:schnorr.ParseSignature:caller-input-modified:signature", "before=%x after=%x", sig, sigBuf)
+	}
+	scramble(sigBuf)
 	if (err == nil) != wantSigParse {
 		cls := "length"
 		if len(sig) == 64 {
@@ -272,7 +294,11 @@ func famSchnorrBoundary(k *mon.Case) {
 		k.Failf("schnorr:ParseSignature:value-changed", "sig=%x reserialized=%x", sig, ps.Serialize())
 	}
 	refKey, rerr := refec.ParseXOnly(pk)
-	pp, err := schnorr.ParsePubKey(pk)
+	pp, err := schnorr.ParsePubKey(pkBuf)
+	if !bytes.Equal(pkBuf, pk) {
+		k.Failf("aliasing:schnorr.ParsePubKey:caller-input-modified:key", "before=%x after=%x", pk, pkBuf)
+	}
+	scramble(pkBuf)
 	if (err == nil) != (rerr == nil) {
 		k.Failf(fmt.Sprintf("schnorr:ParsePubKey:btcd-%s-spec-%s", b2s(err == nil), b2s(rerr == nil)), "pk=%x err=%v referr=%v", pk, err, rerr)
 	} else if err == nil && !samePoint(pp, refKey) {
